@@ -125,8 +125,111 @@ pub struct Stats {
     pub max_depth: usize,
 }
 
+/// replay mode: the description of the history to re-run (set by `verif replay`)
+pub static REPLAY_TARGET: std::sync::OnceLock<Value> = std::sync::OnceLock::new();
+pub fn replaying() -> bool {
+    REPLAY_TARGET.get().is_some()
+}
+
+/// `verif replay` of a recorded history: the owning check is run with the target set; every
+/// model it builds is searched (without executing anything) for the history with the recorded
+/// description, which is then run once on fresh real objects, outside the explorer
+pub fn replay_by_search(prop: &str, case: &Value) -> i32 {
+    let _ = REPLAY_TARGET.set(case["history"].clone());
+    println!("searching the models of {prop} for the recorded history ...");
+    let run = |tier: Tier| match prop {
+        "C03" => crate::c03::run(tier),
+        "C04" => crate::c04::run(tier),
+        "C06" => crate::c06::run(tier),
+        "C09" => crate::c09::run(tier),
+        "C10" => crate::c10::run(tier),
+        "C11" => crate::c11::run(tier),
+        "C12" => crate::c12::run(tier),
+        "C20" => crate::c20::run(tier),
+        _ => 2,
+    };
+    // (a match ends the process from inside `explore`)
+    if run(Tier::Quick) == 2 {
+        run(Tier::Thorough);
+    }
+    println!("history not found in the models of {prop}");
+    2
+}
+
+fn search<H: Hist>(h: &H, hist: &mut Vec<H::Act>, target: &Value) -> bool {
+    let d = h.describe(hist);
+    if &d == target {
+        return true;
+    }
+    // descriptions that list one entry per step allow pruning by prefix
+    if let (Some(da), Some(ta)) = (d.as_array(), target.as_array()) {
+        if da.len() == hist.len() && (da.len() >= ta.len() || da[..] != ta[..da.len()]) {
+            return false;
+        }
+    }
+    if hist.len() >= h.max_len() {
+        return false;
+    }
+    let mut acts = Vec::new();
+    h.enabled(hist, &mut acts);
+    for a in acts {
+        hist.push(a);
+        if search(h, hist, target) {
+            return true;
+        }
+        hist.pop();
+    }
+    false
+}
+
+fn replay_in<H: Hist>(h: &H, target: &Value, name: &str) {
+    for root in h.roots() {
+        let mut hist = root;
+        if search(h, &mut hist, target) {
+            println!("found in model {name:?}: {hist:?}");
+            // second attempt (see below): the one-step histories of the model run first
+            let roots_first = std::env::var_os("VERIF_REPLAY_ROOTS_FIRST").is_some();
+            if roots_first {
+                println!("  (after all one-step histories of the model in the same process)");
+                for r in h.roots() {
+                    let _ = crate::common::guard(|| h.run(&r));
+                }
+            }
+            let code = match crate::common::guard(|| h.run(&hist)) {
+                Ok(o) if o.bad.is_empty() => {
+                    println!("  => every judged step of this history agrees with the reference");
+                    if roots_first {
+                        0
+                    } else {
+                        // state kept between calls (what the sequential histories of C20 look for)
+                        // can depend on histories explored earlier in the same process
+                        let exe = std::env::current_exe().expect("exe");
+                        let st = std::process::Command::new(exe).args(std::env::args().skip(1)).env("VERIF_REPLAY_ROOTS_FIRST", "1").status().expect("spawn");
+                        st.code().unwrap_or(2)
+                    }
+                }
+                Ok(o) => {
+                    for (sig, what) in &o.bad {
+                        println!("  BAD {sig}: {what}");
+                    }
+                    1
+                }
+                Err(p) => {
+                    println!("  BAD panic: {p}");
+                    1
+                }
+            };
+            std::process::exit(code);
+        }
+    }
+}
+
 /// explore to the history-length bound (or to closure if the graph is finite below it)
 pub fn explore<H: Hist>(h: H, rep: &mut Report, engine_tag: &str, name: &str) -> Stats {
+    if let Some(target) = REPLAY_TARGET.get() {
+        replay_in(&h, target, name);
+        return Stats { unique: 0, total: 0, max_depth: 0 };
+    }
     let shared = Arc::new(Mutex::new(Shared::default()));
     let t0 = std::time::Instant::now();
     // stateright's BFS hands out work in blocks of 1500 states, which serialises models whose
